@@ -36,6 +36,7 @@ class Kafka(Scenario):
         self.plan = list(p["plan"])
         self.life = 1
         self.first_poll_high = {}
+        self.flaky_sleeps = 0
 
     def site(self):
         return "from_kafka_batched/" + self.params["consumer"]
@@ -51,6 +52,9 @@ class Kafka(Scenario):
             self.broker.fail_committed = 1
         if "wm0" in opts:
             self.broker.fail_watermark = (0,)
+        self.broker.flaky = "flaky" in opts
+        if "low3" in opts:
+            self.broker.low = {0: 3}        # the first three messages of partition 0 have expired
         if "sentinel" in opts:
             # (used by C19) the process-wide background loop is replaced by a stand-in that reports every use: an
             # asynchronous pipeline bound to the caller's loop must never touch it
@@ -140,6 +144,9 @@ class Kafka(Scenario):
 
             @staticmethod
             def sleep(d):
+                if scen.broker.flaky and scen.flaky_sleeps < 50:
+                    scen.flaky_sleeps += 1      # an empty poll while data is on its way: wait and poll again
+                    return
                 scen.violations.append(Violation("past-watermark", scen.site(), "fetch-waits-for-offset-beyond-the-log",
                                                  dict(batches=[e[3] for e in scen.log if e[0] == "in"], produced=[len(x) for x in scen.broker.parts])))
                 raise BlockingFetch("get_message_batch waits for a message that does not exist")
@@ -256,6 +263,8 @@ class Kafka(Scenario):
                     return Violation("range-overlap", site, "", info)
             else:
                 start = self._start_position(part, e[2])
+                if start is not None:
+                    start = max(start, self.broker.low.get(part, 0))
                 if start is not None and lo != start:
                     return Violation("range-start", site, "", dict(info, partition=part, expected_start=start, got=lo))
                 if start is None and lo < self.present_at_start.get(part, 0):
@@ -308,7 +317,7 @@ class Kafka(Scenario):
                 return Violation("range-gap" if lo > pos2[part] else "range-overlap", site, "second-life", info2)
             if part not in pos2:
                 c = self.committed_at_crash.get((GROUP, part))
-                if c is not None and c >= 0 and lo != c:
+                if c is not None and c >= 0 and lo != max(c, self.broker.low.get(part, 0)):
                     return Violation("range-start", site, "second-life", dict(info2, partition=part, committed=c, got=lo))
             pos2[part] = hi + 1
         if order_ok:
@@ -322,6 +331,8 @@ class Kafka(Scenario):
                 if part >= (p["npartitions"] or p["nparts"]) and not p["refresh"] and part >= p["nparts"]:
                     continue
                 for off, v in enumerate(msgs[: self.high_at_restart[part]]):
+                    if off < self.broker.low.get(part, 0):
+                        continue          # expired before anybody could read it
                     if c is not None and c >= 0 and off < c and v not in complete and self._was_emitted(v):
                         return Violation("committed-past-unprocessed", site, "", dict(info2, message=(part, off)))
                     if v not in complete and v not in redelivered and (c is None or c < 0 or off >= c):
@@ -373,6 +384,11 @@ def plan(ctx):
         jobs.append(((consumer, 2, 1, 1, False, "earliest", ((0, 1),), (0, 0), (0,), 2.0, "cfail"), 0))
         jobs.append(((consumer, 2, 1, None, False, None, (), (0, 0), (0,), 2.0), 0))
         jobs.append(((consumer, 2, 2, None, False, "earliest", (), (1,), (0, 1), 2.0, "wm0"), 0))
+        # a fetching consumer whose poll() comes back empty every other time; a log whose beginning has expired
+        jobs.append(((consumer, 2, 1, None, False, "earliest", (), (0, 0, 0), (0,), 2.0, "flaky"), 0))
+        jobs.append(((consumer, 10, 1, None, False, "earliest", (), (0, 0), (0, 0), 2.0, "flaky"), 0))
+        jobs.append(((consumer, 2, 1, None, False, "earliest", (), (0, 0, 0, 0), (0,), 2.0, "low3"), 0))
+        jobs.append(((consumer, 1, 1, 1, False, "earliest", ((0, 1),), (0, 0, 0, 0), (0,), 2.0, "low3"), 0))
         # reset=latest (explicit and by default) with a backlog in *every* partition of a multi-partition topic
         jobs.append(((consumer, 2, 2, None, False, "latest", (), (0, 1, 1), (0, 1), 2.0), 0))
         jobs.append(((consumer, 2, 3, None, False, None, (), (1, 2, 2), (2, 0), 2.0), 0))
